@@ -440,6 +440,23 @@ def p_feasible(thorough=False, timeout=150):
     return obs
 
 
+def p_solo_fixed(thorough=False, timeout=150):
+    """A task restricted to a fixed worker ID list whose listed worker may lack the skill, next to a skilled solo-working worker who is not
+    on the list (and the same with a solo-working facility that is not on the fixed facility list)."""
+    obs = []
+    for k in (0, 1, 2, 3):
+        ws = [{"skills": {"0": 1, "1": 1}, "solo": True}, {"skills": {"0": "$s10", "1": "$s11"}}]
+        spec = {"tasks": [{"w": "$w0"}, {"w": "$w1", "fixw": [1]}], "edges": [[0, 1, k]], "teams": [_team(ws, [0, 1])], "run": {"max_time": 14, "abs": ["$pa0"]}}
+        obs.append({"name": "live/solo-fixed/k=%s" % KN[k], "harness": "sim", "cube": {"spec": spec},
+                    "params": [["w0", 0, 2], ["w1", 1, 2], ["s10", 0, 1], ["s11", 0, 1], ["pa0", -1, 2]], "timeout": timeout})
+    tasks = [{"w": "$w0", "nf": True, "comp": 0, "fixf": [1]}]
+    wps = [{"targets": [0], "cap": 1, "facs": [{"skills": {"0": 1}, "solo": True}, {"skills": {"0": "$f1"}}]}]
+    ws = [{"skills": {"0": 1}, "fskills": {"0": 1, "1": 1}}]
+    spec = {"tasks": tasks, "edges": [], "teams": [_team(ws, [0])], "wps": wps, "comps": [{"size": 1}], "run": {"max_time": 10}}
+    obs.append({"name": "live/solo-facility-fixed", "harness": "sim", "cube": {"spec": spec}, "params": [["w0", 1, 3], ["f1", 0, 1]], "timeout": timeout})
+    return obs
+
+
 def p_maxtime(thorough=False, timeout=150):
     """C05 (a)/(b): symbolic max_time (including 0 and values below the makespan)."""
     obs = []
@@ -693,7 +710,7 @@ def _obligations_for(prop, tier):
             obs += [ob for ob in p_product("F2", thorough, timeout=900 if thorough else 150, absence=True, flag=flag, auto_second=True) if thorough or "wprule=0" in ob["name"]]
         return obs
     if prop == "C05":
-        obs = p_feasible(thorough, timeout=900 if thorough else 150) + p_maxtime(thorough, timeout=600 if thorough else 150)
+        obs = p_feasible(thorough, timeout=900 if thorough else 150) + p_maxtime(thorough, timeout=600 if thorough else 150) + p_solo_fixed(thorough, timeout=600 if thorough else 150)
         # a feasible project also completes when the run follows a cut run and only the state is initialised again
         obs += with_history([ob for ob in p_feasible(thorough, timeout=900 if thorough else 150) if "/shared1/" in ob["name"] or "/chainshare/" in ob["name"]], "cut+state", 3,
                             {"a0": (-1, -1), "pa0": (-1, -1), "s0": (1, 2), "s1": (1, 2)})
